@@ -76,11 +76,32 @@ func (m *Mast) loadPersisted(ctx context.Context, l string) (*mastNode, error) {
 	if m.debug {
 		fmt.Printf("loaded node %s->%v\n", l, node)
 	}
-	validateNode(ctx, &node, m)
+	err = checkLoadedNode(&node, m)
+	if err != nil {
+		return nil, fmt.Errorf("invalid node %s: %w", l, err)
+	}
 	if m.nodeCache != nil {
 		m.nodeCache.Add(cacheKey, &node)
 	}
 	return &node, nil
+}
+
+// checkLoadedNode makes the same checks as validateNode, but reports a
+// malformed node from the store as an error instead of panicking.
+func checkLoadedNode(node *mastNode, mast *Mast) error {
+	if len(node.Link) != len(node.Key)+1 || len(node.Link) != len(node.Value)+1 {
+		return fmt.Errorf("node has %d links, %d keys, %d values", len(node.Link), len(node.Key), len(node.Value))
+	}
+	if len(node.Key) > 1 {
+		cmp, err := mast.keyOrder(node.Key[0], node.Key[1])
+		if err != nil {
+			return fmt.Errorf("keyCompare: %w", err)
+		}
+		if cmp >= 0 {
+			return fmt.Errorf("keys out of order: %v >= %v", node.Key[0], node.Key[1])
+		}
+	}
+	return nil
 }
 
 func unmarshalNode(m *Mast, nodeBytes []byte, l string, node *mastNode) error {
